@@ -1,5 +1,6 @@
 """C03 - IMFs are peeled one at a time from the running residual; caps are respected."""
 import ast
+from fractions import Fraction
 
 from . import siftcore
 from ..model import AnalysisError, unparse, walk_local
@@ -267,8 +268,9 @@ def rule_cap_bound(ctx, rid, fi, context):
     alg = mk_algebra()
     # one loop summary per pre-loop path; group them by the effective cap at loop entry
     groups = {}
-    for e in exits:
-        for ls in e.state.loops:
+    summaries = [ls for e in exits for ls in e.state.loops] + list(ev.loops_seen.get(loop, []))
+    for _once in (0,):
+        for ls in summaries:
             if ls.node is loop and ls.body_states:
                 capterm = ls.entry_env.get(CAP, S(CAP))
                 if is_c(capterm):
@@ -331,6 +333,19 @@ def _cap_bound_one(ctx, rid, fi, loop, acc, tag, head_acc, alg, ev, capatom, sum
         for c, truth, ln in b.conds:
             if c[0] != 'cmp' or c[1] not in ('==', '>=', '>', '<=', '<', '!='):
                 continue
+            # the guard may count the columns of the accumulator directly:  acc.shape[1] (op) cap
+            colg = None
+            for sa, sb, flip in ((c[2], c[3], False), (c[3], c[2], True)):
+                if sb == capatom and sa[0] == 'sub' and sa[2] == C(1) and sa[1][0] == 'attr' and sa[1][2] == 'shape':
+                    j = _blocks(sa[1][1], head_acc)
+                    if j is not None:
+                        op_ = c[1]
+                        if flip:
+                            op_ = {'>=': '<=', '>': '<', '<=': '>=', '<': '>', '==': '==', '!=': '!='}[op_]
+                        colg = ('#cols', Fraction(j), op_)
+            if colg is not None:
+                guards.add(colg)
+                continue
             d = alg.poly(c[2]) - alg.poly(c[3])
             cap_c = d.coeff_of(alg.canon(capatom))
             if cap_c == 0:
@@ -361,9 +376,21 @@ def _cap_bound_one(ctx, rid, fi, loop, acc, tag, head_acc, alg, ev, capatom, sum
         ctx.undecided(rid, fi, construct, 'several cap comparisons in the loop: %s' % sorted(map(str, guards)), node=loop)
         return
     cn, c0, op = next(iter(guards))
+    # a true cap comparison must end the loop: no iteration end that continues may have it true
+    for passno, how, e_ in getattr(summ, 'ends', []):
+        if how != 'continue':
+            continue
+        for c, truth, ln in e_.conds[summ.n_entry_conds:]:
+            if truth and c[0] == 'cmp' and c[1] in ('==', '>=', '>') and capatom in (c[2], c[3]):
+                ctx.violation(rid, fi, construct, 'the cap comparison is true on a path that keeps the layer loop '
+                              'running (the cap is tested but not enforced)', node=loop, path=trace_tail(e_, 8))
+                return
     # entry values
-    a_lo = ev.bounds(summ.entry_env.get(cn, S('?')), State())
     b0 = _initial_blocks(summ.entry_env.get(acc, ('list', ())))
+    if cn == '#cols':
+        a_lo = (b0, b0)
+    else:
+        a_lo = ev.bounds(summ.entry_env.get(cn, S('?')), State())
     if a_lo[0] is None or a_lo[0] != a_lo[1] or b0 is None:
         ctx.undecided(rid, fi, construct, 'cannot read the counter / column count at loop entry', node=loop)
         return
@@ -408,7 +435,7 @@ def _cap_bound_one(ctx, rid, fi, loop, acc, tag, head_acc, alg, ev, capatom, sum
         else:
             cols = None
             for k in range(1, cap + 12):
-                head = a + (k - 1)
+                head = a + (k - 1) * (d if cn == '#cols' else 1)
                 if OPS[op](head + c0, cap):
                     cols = b0 + k * d
                     break
